@@ -304,7 +304,8 @@ def stream_harness(name):
         if nwords == 1:
             alpha = [d | (k << 8) for d, k in STREAMSYMS]
         else:
-            alpha = [d0 | (d1 << 8) | (k0 << 16) | (k1 << 17) for (d0, k0), (d1, k1) in itertools.product(STREAMSYMS[:4], repeat=2)]
+            lane = [STREAMSYMS[1], STREAMSYMS[3], STREAMSYMS[2]] if "/3sym" in name else STREAMSYMS[:4]
+            alpha = [d0 | (d1 << 8) | (k0 << 16) | (k1 << 17) for (d0, k0), (d1, k1) in itertools.product(lane, repeat=2)]
         return StreamHarness(name, lambda: c8.StreamEncoder(nwords), lambda H: EncModel(T, nwords, alpha), mode="free", alphabet=alpha,
                              M=len(alpha), maxpkt=2, nparam=1, idle_garbage=True,
                              idle_values=[0x20, 0x0FC | (1 << 8)] if gaps else None)
@@ -328,8 +329,10 @@ def configs(tier):
         c += [(f"multiword(nwords=2,lsb_first=True)/class24", 0, 1), ("multiword(nwords=4,lsb_first=True)/class6", 0, 1),
               ("multiword(nwords=4,lsb_first=False)/class8", 0, 1)]
     c += [("StreamEncoder(nwords=1)",), ("StreamDecoder(nwords=1)",), ("StreamEncoder(nwords=1)+idle_symbols",)]
+    # the multi-word wrappers (per-lane control flags, lane slices) with a data / control / unbalanced symbol in every lane
+    c += [("StreamEncoder(nwords=2)/3sym",), ("StreamDecoder(nwords=2)",)]
     if tier == "thorough":
-        c += [("StreamEncoder(nwords=2)",), ("StreamDecoder(nwords=2)",)]
+        c += [("StreamEncoder(nwords=2)",)]
     return c
 
 
